@@ -53,6 +53,8 @@ pub fn check(tier: Tier) -> Check {
     // acknowledgements with the non-zero success reason 0x10 in the alphabet
     parts.push(Part::new("C05/ops", json!({"depth": tier.pick(5, 6), "nomatch": true}), 0, tier.pick(40, 600)));
     parts.push(Part::new("C05/ops", json!({"depth": tier.pick(4, 5), "nomatch": true}), 1, tier.pick(40, 600)));
+    // acknowledgements whose content (reason string, user properties) takes more than 127 bytes
+    parts.push(Part::new("C05/ops", json!({"depth": tier.pick(4, 5), "longtag": true}), 0, tier.pick(40, 600)));
     // two operations outstanding whose packet identifiers differ in exactly one bit
     parts.push(Part::new("C05/bits", json!({}), 0, 120));
     // value flavour (DESIGN 4): the same exploration with requests / inbound messages of unusual content
@@ -326,7 +328,7 @@ pub fn scenario(name: &str, params: &Value) -> Scenario {
                     }
                 }
             }
-            if params["nomatch"].as_bool().unwrap_or(false) {
+            if params["nomatch"].as_bool().unwrap_or(false) || params["longtag"].as_bool().unwrap_or(false) {
                 // also the success reason that is not zero (0x10 "no matching subscribers"): a PUBACK /
                 // PUBREC with it is an ordinary success - the QoS 2 exchange goes on to its PUBCOMP
                 evs.extend(super::common::broker_acks_ext(&sys, true, true, true));
